@@ -356,7 +356,14 @@ fn mutate_pem(rng: &mut Rng, pem: &str) -> String {
 	for _ in 0..1 + rng.below(2) {
 		s = match rng.below(14) {
 			0 => s.replace('\n', "\r\n"),
-			1 => s[..(rng.below(s.len() as u64 + 1) as usize).min(s.len())].chars().filter(|c| c.is_ascii()).collect(),
+			1 => {
+				// truncate (on a character boundary: an earlier step may have put "é" into a label)
+				let mut cut = (rng.below(s.len() as u64 + 1) as usize).min(s.len());
+				while !s.is_char_boundary(cut) {
+					cut -= 1;
+				}
+				s[..cut].chars().filter(|c| c.is_ascii()).collect()
+			},
 			2 => s.replacen("BEGIN", "BEGINN", 1),
 			3 => s.replacen("-----END", "----END", 1),
 			4 => {
@@ -991,7 +998,14 @@ pub fn run(ctx: &Ctx, shard: (u64, u64)) {
 
 	// watchdog: a call running longer than 20 s makes the run inconclusive (never a violation)
 	let stop = std::sync::atomic::AtomicBool::new(false);
+	struct StopOnDrop<'a>(&'a std::sync::atomic::AtomicBool);
+	impl Drop for StopOnDrop<'_> {
+		fn drop(&mut self) {
+			self.0.store(true, Ordering::Relaxed);
+		}
+	}
 	std::thread::scope(|s| {
+		let _stop_guard = StopOnDrop(&stop);
 		s.spawn(|| {
 			while !stop.load(Ordering::Relaxed) {
 				std::thread::sleep(std::time::Duration::from_millis(500));
